@@ -73,4 +73,21 @@ CHECKS = {
         "quick": [T("TestC06", 8, 150, steps=30)],
         "thorough": [T("TestC06", 16, 4000, steps=45, timeout=3000)],
     },
+    "C02": {
+        "level": "exploration",
+        "rule": ("rapid state machine on a real node (std world, audit on/off, 2-6 ordered service pairs incl. blacklisted and "
+                 "missing destinations): requests and receipts with indices next/duplicate/future/0/2^63/2^64-1, several IBTPs "
+                 "per block, transfers, direct calls of every public interchain-contract method by an outsider (Register, "
+                 "GetInterchain, GetIBTPByID, GetAllServiceIDs, DeleteInterchain, InitServiceCache, GetServiceCache, "
+                 "HandleIBTPData), restart. Oracle: counter model per pair (accept iff next index; receipt only for an accepted "
+                 "request), completeness for the plain case, raw state dump unchanged (modulo nonce/fee/transfer accounts and "
+                 "expiring records) for blocks whose IBTPs were all rejected, GetInterchain counters on source and destination "
+                 "side == model after every block, accepted request listed exactly once in that block's delivery set and in the "
+                 "router's wrappers for the destination chain. Non-trivial = a pair with an accepted request, a rejected duplicate "
+                 "and a rejected future index, >=2 active pairs and a block with several IBTPs; distinct = hash of history."),
+        "assumptions": ["all services are ordered (unordered/batch services are out of the statement)",
+                        "delivery to the union pier of a remote BitXHub is covered by the C03 check's inter-hub cases"],
+        "quick": [T("TestC02", 8, 150, steps=35)],
+        "thorough": [T("TestC02", 16, 4000, steps=50, timeout=3000)],
+    },
 }
